@@ -203,7 +203,8 @@ def playback(stage_dir, crate, harness_file, tests, release=False, timeout=600):
         pm = re.search(r"panicked at ([^\n]*)\n([^\n]*)", text)
         if pm:
             panic = (pm.group(1) + " :: " + pm.group(2)).strip()
-        assume_failed = "kani::assume" in text or "assumption" in panic.lower()
+        # (only the panic message counts: compiler warnings in the log quote harness source lines)
+        assume_failed = "assume" in panic.lower() or "assumption" in panic.lower()
         reproduced = bool(ran and ran.group(1) == "FAILED" and int(ran.group(3)) >= 1 and not assume_failed)
         out.append({"test": n, "reproduced": reproduced, "ran": bool(ran), "panic": panic, "assume_failed": assume_failed,
                     "release": release, "secs": secs, "log": log})
